@@ -320,7 +320,7 @@ def harness(config, flavour, name='xrlmon', extra_src=(), extra_flags=(), cxx=Fa
         return harness_meson(config, name)
     if flavour == 'meson-tsan':
         return harness_meson(config, name, sanitize='thread')
-    if flavour in ('meson-release', 'meson-uchar'):
+    if flavour in ('meson-release', 'meson-uchar', 'meson-static'):
         return harness_meson(config, name, variant=flavour[6:])
     L = lib(config, flavour)
     st = sigtab()
@@ -439,8 +439,11 @@ def stale_inline(config):
 # Configurations of the PROJECT's build a user can really have besides the default one: an optimised build without assertions (distributions
 # build with buildtype=release / b_ndebug=true), and the ABI of the platforms where plain char is unsigned (Linux on arm, aarch64, ppc64le,
 # s390x, riscv64), emulated here with -funsigned-char.  The library must be the same function of its arguments in all of them.
-MESON_VARIANTS = {None: [], 'release': ['-Dbuildtype=release', '-Db_ndebug=true'], 'uchar': ['-Dc_args=-funsigned-char', '-Dcpp_args=-funsigned-char']}
-PROJECT_BUILDS = ('meson', 'meson-release', 'meson-uchar')
+# 'static': the archive (default_library=static) linked into an executor that references only the functions it calls (harness/xrlexec.c).
+MESON_VARIANTS = {None: [], 'release': ['-Dbuildtype=release', '-Db_ndebug=true'], 'uchar': ['-Dc_args=-funsigned-char', '-Dcpp_args=-funsigned-char'],
+                  'static': ['-Ddefault_library=static']}
+PROJECT_BUILDS = ('meson', 'meson-release', 'meson-uchar')          # shared libraries: any harness program, ctypes
+EXEC_BUILDS = PROJECT_BUILDS + ('meson-static',)                       # for the executor (execlib.Lib)
 
 
 def meson_lib(config, dirty=False, sanitize=None, variant=None):
@@ -466,10 +469,10 @@ def meson_lib(config, dirty=False, sanitize=None, variant=None):
         _run(['meson', 'setup', b, src, '-Dpython-bindings=disabled', '-Dpython-numpy-bindings=disabled', '-Dfortran-bindings=disabled'] +
              (['-Db_sanitize=' + sanitize, '-Db_lundef=false'] if sanitize else []) + MESON_VARIANTS[variant], timeout=1800)
         _run(['meson', 'compile', '-C', b, 'xrl'], timeout=3600)
-        if not os.path.exists(os.path.join(b, 'src', 'libxrl.so')):
-            raise BuildError('meson did not produce src/libxrl.so')
+        if not os.path.exists(os.path.join(b, 'src', 'libxrl.a' if variant == 'static' else 'libxrl.so')):
+            raise BuildError('meson did not produce src/libxrl.%s' % ('a' if variant == 'static' else 'so'))
     d = _target('lib-%s-meson%s%s%s' % (config, '-dirty' if dirty else '', '-' + sanitize if sanitize else '', '-' + variant if variant else ''), mk)
-    return dict(dir=os.path.join(d, 'b', 'src'), so=os.path.join(d, 'b', 'src', 'libxrl.so'), cfgdir=os.path.join(d, 'b'))
+    return dict(dir=os.path.join(d, 'b', 'src'), so=os.path.join(d, 'b', 'src', 'libxrl.so'), a=os.path.join(d, 'b', 'src', 'libxrl.a'), cfgdir=os.path.join(d, 'b'))
 
 
 PUBLIC_HELPERS = ('Crystal_F_H_StructureFactor2', 'Crystal_F_H_StructureFactor_Partial2', 'Refractive_Index2', 'xrl_error_new', 'xrl_error_new_literal',
@@ -526,11 +529,13 @@ def harness_meson(config, name='xrlmon', sanitize=None, variant=None):
     """harness program linked against meson_lib(config) (shared); the monitor sources are compiled with the plain flags"""
     L = meson_lib(config, sanitize=sanitize, variant=variant)
     st = sigtab()
+    if variant == 'static':
+        name = 'xrlexec'
     hh = _harness_hash([os.path.join(HARNESS, name + '.c')])
 
     def mk(d):
         cmd = ['gcc', '-O2', '-g'] + (['-fsanitize=' + sanitize] if sanitize else []) + CORE + ['-I' + L['cfgdir'], '-I' + os.path.join(REPO, 'src'), '-I' + os.path.join(REPO, 'include'), '-I' + REPO, '-I' + st, '-I' + HARNESS,
-               os.path.join(HARNESS, name + '.c'), '-o', os.path.join(d, name), '-L' + L['dir'], '-lxrl', '-Wl,-rpath,' + L['dir'], '-lm', '-lpthread', '-ldl']
+               os.path.join(HARNESS, name + '.c'), '-o', os.path.join(d, name)] + ([L['a']] if variant == 'static' else ['-L' + L['dir'], '-lxrl', '-Wl,-rpath,' + L['dir']]) + ['-lm', '-lpthread', '-ldl']
         _run(cmd)
     d = _target('hm-%s-%s%s%s-%s' % (name, config, '-' + sanitize if sanitize else '', '-' + variant if variant else '', hh), mk)
     return os.path.join(d, name)
